@@ -216,6 +216,22 @@ pub open spec fn reply_init<F: FileSystem>(fs: &F, hd: InHeader, rem: Seq<u8>, b
             Err(e) => b == err_reply(hd.unique, e) } }
     } else { is_err_reply(hd.unique, b) }
 }
+// ---- directory entries (C03, C16): fuse_dirent {ino, off, namelen, type} + name, padded to 8 bytes; plus: fuse_entry_out in front
+pub open spec fn dirent_pad(namelen: int) -> int { (8 - (24 + namelen) % 8) % 8 }
+pub open spec fn dirent_total(namelen: int, plus: bool) -> int { 24 + namelen + dirent_pad(namelen) + (if plus { 128int } else { 0int }) }
+pub open spec fn zeros(n: int) -> Seq<u8> { Seq::new(n as nat, |i: int| 0u8) }
+pub open spec fn dirent_bytes(d: DirEntry, entry: Option<Entry>) -> Seq<u8> {
+    (match entry { Some(e) => entry_out(e).sbytes(), None => Seq::<u8>::empty() })
+    + (Dirent { ino: d.ino, off: d.offset, namelen: d.name@.len() as u32, type_: d.type_ }).sbytes() + d.name@ + zeros(dirent_pad(d.name@.len() as int))
+}
+pub proof fn lemma_pad(x: usize)
+    requires x <= usize::MAX - 7
+    ensures ((x + 7) as usize & !7usize) as int == x as int + (8 - x as int % 8) % 8, ((x + 7) as usize & !7usize) % 8 == 0, ((x + 7) as usize & !7usize) >= x,
+{
+    let y = (x + 7) as usize;
+    assert(y & !7usize == y - y % 8) by (bit_vector);
+    assert((y - y % 8) as int == x as int + (8 - x as int % 8) % 8) by (nonlinear_arith) requires y == x + 7;
+}
 // setxattr: fuse_setxattr_in {size, flags} + name NUL value; `size` must equal the length of the value
 pub open spec fn xattr_body(hd: InHeader, rem: Seq<u8>) -> Seq<u8> { rem.subrange(8, 8 + (hd.len as int - 40 - 8)) }
 pub open spec fn wf_setxattr(hd: InHeader, rem: Seq<u8>) -> bool {
@@ -464,7 +480,7 @@ def unit(root='/repo'):
         Copy(FSMOD, r'pub enum ListxattrReply\b'),
         Copy(LIB, r'pub enum Error\b'),
         Copy(SMOD, r'pub const MAX_BUFFER_SIZE\b'), Copy(SMOD, r'const MIN_READ_BUFFER\b'), Copy(SMOD, r'const BUFFER_HEADER_SIZE\b'),
-        Copy(SMOD, r'const DIRENT_PADDING\b', subst=[('const DIRENT_PADDING', 'exec const DIRENT_PADDING')]),
+        Copy(SMOD, r'const DIRENT_PADDING\b', array_const=True),
         Copy(SMOD, r'pub const MAX_REQ_PAGES\b'),
         Copy(SMOD, r'pub struct ServerVersion\b', prefix='#[derive(Clone)]'),
         Copy(SMOD, r'pub struct InitParams\b'),
@@ -650,6 +666,23 @@ impl<'a, S: BitmapSlice> ZeroCopyReader for ZcReader<'a, S> { }
     if only:
         custom = [c for c in custom if c.name in only.split(',')]
     items.append(Group('impl<F: FileSystem> Server<F> {', hs + custom))
+    items.append(Fn(SYNC, None, 'add_dirent',
+                    requires=['old(cursor).buffered@', 'old(cursor).buf@.len() <= old(cursor).cap@', 'old(cursor).cap@ <= MAX_REPLY_CAP'],
+                    ensures=['final(cursor).frame_same(old(cursor))', 'final(cursor).emitted@ == old(cursor).emitted@',
+                             '''({ let total = dirent_total(d.name@.len() as int, entry is Some);
+                                let room = if max as int >= old(cursor).buf@.len() { max as int - old(cursor).buf@.len() } else { 0 };
+                                match r {
+                                    // "Ok(0) <=> nothing written": a backend that stops at the first 0 loses nothing
+                                    Ok(n) => if room < total { n == 0 && final(cursor).buf@ == old(cursor).buf@ }
+                                             // one WHOLE, 8-byte aligned entry: entry_out (plus only), dirent, name, zero padding
+                                             else { n == total && n % 8 == 0 && final(cursor).buf@ == old(cursor).buf@ + dirent_bytes(d, entry) },
+                                    Err(_) => true } }) // [C03.dirent.whole][C16.dirent.fit]''',
+                             'r is Ok && old(cursor).buf@.len() <= max ==> final(cursor).buf@.len() <= max // [C03.dirent.max][C16.dirent.max]'],
+                    splices=[('^', 'after', 'broadcast use axiom_sbytes_len;'),
+                             ('|l|', 'closure', '|l: usize| -> (q: usize) ensures q == l & !7usize'),
+                             ('// Skip the entry if there', 'before', 'proof { lemma_pad(dirent_len); }'),
+                             ('Ok(total_len)', 'before', 'proof { assert(cursor.buf@ =~= old(cursor).buf@ + dirent_bytes(d, entry)); }')],
+                    props=['C03', 'C16'], canary=True))
     return Unit('server', items, preludes=['base.rs', 'stdmodel.rs', 'transport.rs', 'server.rs'],
                 generic_tags={'cap': ['C02'], 'touch': ['C02'], 'ids': ['C02'], 'emit': ['C03'], 'frame': ['C01'], 'noreply': ['C01'],
                               'once': ['C01'], 'assert': ['C01']},
